@@ -115,6 +115,8 @@ type Sim struct {
 
 	escrow, deposit, collector sdk.AccAddress
 
+	endEvents map[int64][]abci.Event // end-of-block events by height (served to the client stub, client.go)
+
 	modules []string // names on the genesis line, registered again on the app of `reimport`
 	modsvc  string
 
@@ -570,6 +572,10 @@ func (s *Sim) endBlock(res *StepResult, dt int64) (events []abci.Event) {
 		return nil
 	}
 	events = s.ctx.EventManager().ABCIEvents()
+	if s.endEvents == nil {
+		s.endEvents = map[int64][]abci.Event{}
+	}
+	s.endEvents[s.ctx.BlockHeight()] = events
 	s.ctx = s.ctx.WithBlockHeight(s.ctx.BlockHeight() + 1).
 		WithBlockTime(s.ctx.BlockTime().Add(time.Duration(dt))).
 		WithEventManager(sdk.NewEventManager())
